@@ -296,7 +296,16 @@ def check(run):
                     'reads of sugar / outer / outer_min_content_size / outer_max_content_size are calls of the regenerated '
                     'getters (resolved by name) and `x.outer = e` is the regenerated setter body; min_content_size / '
                     'max_content_size (properties of the subclasses calling the preferred-width code) are inputs; '
-                    'restore_box_attributes is an oracle returning None']
+                    'restore_box_attributes is an oracle returning None',
+                    'translator tie of StyleFor._page_type_match (gen/GenPageSel.v, proofs/C14_gen_match.v): the whole function; '
+                    'trusted: PageSelectorType / PageType are attribute bags (namedtuples) holding what model/C14Page.v says '
+                    '(side strings, booleans, integers, None, the :nth triple, the groups as pairs); integers are exact '
+                    'rationals n/1, so `offset / a >= 0` is decided on the exact quotient (CPython: a correctly rounded float of '
+                    'the same sign, OverflowError beyond 1e308) and `%` is the primitive PMod of base/Py.v (floor-mod)',
+                    'translator tie of _standardize_page_based_counters (gen/GenPageCounters.v, proofs/C14_gen_counters.v): '
+                    'the whole function; trusted: the style dictionary is an attribute bag with string keys mutated in '
+                    'place (read back from the final environment), counter properties are \'auto\' or sequences of '
+                    '(name, value) pairs; the loop over the three property names is unrolled by py2coq (constant keys)']
     run.assumptions += ['margin-box content layout is ordinary block layout (C05); the min/max-content widths of margin boxes are '
                         'inputs of the model (computed by the harness from the words in the render streams)',
                         'counter(pages) needs the relayout loop (C15): only its displayed value is monitored here',
